@@ -24,6 +24,7 @@ type hcase struct {
 	V       string `json:"visitor_observation"` // easy | regular | irregular
 	C       string `json:"client_observation"`
 	Attempt int    `json:"attempt"` // 1-based: attempts 1..n-1 got no success report
+	Noise   bool   `json:"noise,omitempty"` // datagrams of another session of the same proxy (same key, other sid) reach both sockets meanwhile
 }
 
 func observed(real *net.UDPAddr, kind string) []string {
@@ -85,6 +86,35 @@ func run(hc hcase) (string, string) {
 		_, raddr, err := nathole.MakeHole(context.Background(), conn, r, key)
 		out <- res{raddr, err}
 	}
+	if hc.Noise {
+		// another visitor of the same proxy is punching its own hole at the same time: its datagrams carry the proxy's
+		// key and another session id, and some of them land on these two sockets
+		stop := make(chan struct{})
+		defer close(stop)
+		if nConn, err := net.ListenUDP("udp4", &net.UDPAddr{IP: net.IPv4(127, 0, 0, 1)}); err == nil {
+			defer nConn.Close()
+			go func() {
+				for i := 0; ; i++ {
+					for _, resp := range []bool{false, true} {
+						if b, err := nathole.EncodeMessage(&msg.NatHoleSid{TransactionID: fmt.Sprint("other-", i), Sid: "sid-of-another-session", Response: resp, Nonce: "n"}, key); err == nil {
+							nConn.WriteToUDP(b, vReal)
+							nConn.WriteToUDP(b, cReal)
+						}
+					}
+					select {
+					case <-stop:
+						return
+					case <-time.After(40 * time.Millisecond):
+					}
+				}
+			}()
+		}
+	}
+	// A wait on a single socket re-arms its deadline with every datagram, whoever sent it; with the parallel cases
+	// probing port ranges on the one loopback interface a disturbed case could then wait for ever: after 40 s the
+	// sockets are closed, the attempt counts as failed and is judged again when run alone.
+	wd := time.AfterFunc(40*time.Second, func() { vConn.Close(); cConn.Close() })
+	defer wd.Stop()
 	vCh, cCh := make(chan res, 1), make(chan res, 1)
 	go one(vConn, vResp, vCh)
 	go one(cConn, cResp, cCh)
@@ -113,14 +143,18 @@ func main() {
 	if c == nil {
 		return
 	}
-	c.Rule("every pair of reported NAT observations {same port twice, ports 2 apart, ports 200 apart} for visitor and proxy owner x every attempt number 1..N (attempt k = the k-th recommendation for that address pair after k-1 attempts without a success report; N = 8 quick / 12 thorough covers every behaviour of every mode's list): the controller's real analysis produces the two instructions, both roles run the real MakeHole on loopback UDP sockets (the sender's instruction one second after the receiver's, as the server does); oracle: both return without error with an address of the peer's host (the peer may answer from one of the extra sockets it opens for port prediction); cases whose instructions do not contain the real addresses are skipped; non-trivial = distinct (observation pair, attempt)")
+	c.Rule("every pair of reported NAT observations {same port twice, ports 2 apart, ports 200 apart} for visitor and proxy owner x every attempt number 1..N (attempt k = the k-th recommendation for that address pair after k-1 attempts without a success report; N = 8 quick / 12 thorough covers every behaviour of every mode's list): the controller's real analysis produces the two instructions, both roles run the real MakeHole on loopback UDP sockets (the sender's instruction one second after the receiver's, as the server does); oracle: both return without error with an address of the peer's host (the peer may answer from one of the extra sockets it opens for port prediction); cases whose instructions do not contain the real addresses are skipped; the first two attempts of every pair are repeated while datagrams of a concurrent session of the same proxy (same key, another session id) keep arriving at both sockets: they must be ignored; non-trivial = distinct (observation pair, attempt)")
 	c.Assume("loopback stands for 'an unfiltered network'; timing as instructed by the controller (real time); a failure is re-run twice before it is reported")
 	N := drv.Pick(c, 8, 12)
 	var cases []hcase
 	for _, v := range []string{"easy", "regular", "irregular"} {
 		for _, cl := range []string{"easy", "regular", "irregular"} {
 			for a := 1; a <= N; a++ {
-				cases = append(cases, hcase{v, cl, a})
+				cases = append(cases, hcase{V: v, C: cl, Attempt: a})
+			}
+			// the same pair while datagrams of a concurrent session of the same proxy arrive (first attempts)
+			for a := 1; a <= 2; a++ {
+				cases = append(cases, hcase{V: v, C: cl, Attempt: a, Noise: true})
 			}
 		}
 	}
@@ -142,7 +176,7 @@ func main() {
 	}
 	wg.Wait()
 	for _, r := range res {
-		c.Count(fmt.Sprintf("hole:%s:%s:%d", r.hc.V, r.hc.C, r.hc.Attempt))
+		c.Count(fmt.Sprintf("hole:%s:%s:%d:%v", r.hc.V, r.hc.C, r.hc.Attempt, r.hc.Noise))
 		if r.in != "" {
 			c.Cap("inconclusive: " + r.in)
 		}
@@ -153,7 +187,7 @@ func main() {
 			v2, _ := run(r.hc)
 			switch {
 			case v1 != "" && v2 != "":
-				c.Violate("hole", fmt.Sprintf("hole:%s/%s:attempt%d", r.hc.V, r.hc.C, r.hc.Attempt), v1, r.hc)
+				c.Violate("hole", fmt.Sprintf("hole:%s/%s:attempt%d%s", r.hc.V, r.hc.C, r.hc.Attempt, map[bool]string{true: ":noise"}[r.hc.Noise]), v1, r.hc)
 			case v1 == "" && v2 == "":
 				c.Note(fmt.Sprintf("passed_alone:%s/%s:%d", r.hc.V, r.hc.C, r.hc.Attempt), "failed once among 36 parallel cases, passed twice when run alone")
 			default:
